@@ -1,21 +1,53 @@
 /*@UNIT
 {
-  "property": "C13",
-  "unit": "div_2d_exact",
-  "function": "pstm_div_2d",
-  "source": "crypto/math/pstm.c",
-  "keep_bodies": ["pstm_copy", "pstm_rshd", "pstm_zero", "pstm_clamp", "pstm_mod_2d", "pstm_grow"],
-  "assumed": ["realloc (model c13_realloc in c13x.h: NULL, or a distinct constant-size block holding the old contents)"],
-  "mode": "bounded",
-  "bounds": "operand of at most NDIG digits (quick 3, thorough 4), every 16-bit signed bit count, every digit value and sign; quotient only (d == NULL), quotient and remainder (bit counts 1..64, see unit mod_2d for larger ones), in-place quotient (c == a)",
-  "defs_quick": ["NDIG=3"],
-  "defs_thorough": ["NDIG=4"],
-  "unwind_quick": 10,
-  "unwind_thorough": 11,
-  "object_bits": 8,
-  "cases": [{"name": "quotient", "defs": []}, {"name": "quotient_in_place", "defs": ["ALIAS_CA=1"]}, {"name": "with_remainder", "defs": ["WITH_REM=1"], "tier": "thorough"}],
-  "native_replay": true,
-  "timeout": 600
+ "property": "C13",
+ "unit": "div_2d_exact",
+ "function": "pstm_div_2d",
+ "source": "crypto/math/pstm.c",
+ "keep_bodies": [
+  "pstm_copy",
+  "pstm_rshd",
+  "pstm_zero",
+  "pstm_clamp",
+  "pstm_mod_2d",
+  "pstm_grow"
+ ],
+ "assumed": [
+  "realloc (model c13_realloc in c13x.h: NULL, or a distinct constant-size block holding the old contents)"
+ ],
+ "mode": "bounded",
+ "bounds": "operand of at most NDIG digits (quick 3, thorough 4), every 16-bit signed bit count, every digit value and sign; quotient only (d == NULL), quotient and remainder (bit counts 1..64, see unit mod_2d for larger ones), in-place quotient (c == a)",
+ "defs_quick": [
+  "NDIG=3"
+ ],
+ "defs_thorough": [
+  "NDIG=4"
+ ],
+ "unwind_quick": 10,
+ "unwind_thorough": 11,
+ "object_bits": 8,
+ "cases": [
+  {
+   "name": "quotient",
+   "defs": []
+  },
+  {
+   "name": "quotient_in_place",
+   "defs": [
+    "ALIAS_CA=1"
+   ]
+  },
+  {
+   "name": "with_remainder",
+   "defs": [
+    "WITH_REM=1"
+   ],
+   "tier": "thorough"
+  }
+ ],
+ "native_replay": true,
+ "timeout": 600,
+ "tier": "thorough"
 }
 @*/
 /* C13.div_2d_exact  c = trunc(a / 2^b) exactly (magnitude shifted, sign kept, zero non-negative) and,
